@@ -27,6 +27,7 @@ MaxIdx == 2147483647
 NoId == ""
 
 Range(s) == {s[i] : i \in DOMAIN s}
+Rev(s) == [i \in 1..Len(s) |-> s[Len(s) + 1 - i]]
 
 -----------------------------------------------------------------------------
 \* filters (literal ids only) and filter sets
@@ -110,5 +111,6 @@ SelLaws == /\ Sel(A, o) \subseteq {i \in DOMAIN A : o.b <= A[i].index /\ A[i].in
            /\ Sel(A, o) = Sel(A, [o EXCEPT !.sort = ~o.sort, !.style = "none", !.ofile = ~o.ofile])
            /\ Sel(A, o) = Sel(A, [o EXCEPT !.b = 0, !.e = MaxIdx]) \cap Sel(A, [o EXCEPT !.lcs = {}, !.ff = <<>>, !.eac = <<>>])
            /\ Sel(A, o) = Sel(A, [o EXCEPT !.ff = o.eac, !.eac = o.ff])       \* order of the filters is irrelevant
+           /\ Sel(A, o) = Sel(A, [o EXCEPT !.ff = Rev(o.ff) \o o.ff, !.eac = Rev(o.eac)])   \* ... and so are duplicates: a function of the SET
 Terminates == <>done
 =============================================================================
